@@ -173,8 +173,11 @@ func genHistory(condPct int, ro bool, minSteps, maxSteps int) *rapid.Generator[S
 				return op
 			case k < 17:
 				return gcs.Op{K: "copy", Bucket: bucket(), Name: name(), DstBucket: bucket(), DstName: name()}
-			case k < 19:
+			case k < 18:
 				return gcs.Op{K: "get", Bucket: bucket(), Name: name(), Form: rapid.SampledFrom([]string{"json", "download", "public"}).Draw(t, "form")}
+			case k < 19:
+				return gcs.Op{K: "list", Bucket: bucket(), Prefix: rapid.SampledFrom([]string{"", "a", "dir/", "d", "x/"}).Draw(t, "prefix"),
+					Delim: rapid.SampledFrom([]string{"", "/", "."}).Draw(t, "delim"), Max: rapid.SampledFrom([]string{"", "1", "2"}).Draw(t, "max")}
 			default:
 				return gcs.Op{K: "getmeta", Bucket: bucket(), Name: name()}
 			}
